@@ -51,6 +51,56 @@ PANIC_REVIEWED = {
 }
 
 
+def _cond_option_index(body, bb):
+    """variants[1 - d] / 1 - d: only under the Some arm of variants.get(d) and `variants.len() == 2`"""
+    some = False
+    for names, adt, oo, d_, oth in option_guards(body, bb):
+        if 'Some' in names and 'get' in oo.flags and 'variants' in oo.fields:
+            some = True
+    two = False
+    for g in cmp_guards(body, bb):
+        if g['op'] == 'Eq' and 'len' in g['l'].flags and 'variants' in g['l'].fields and g['r'].consts() == {2}:
+            two = True
+    return some and two
+
+
+def _cond_checked_sub_start(body, bb):
+    """buf[start..] / buf[0..start]: start comes from a checked_sub whose None is an error"""
+    t = body.term(bb)
+    o = origin(body, t['args'][1])
+    return any(call_matches(c, ['::checked_sub']) for c in o.calls) and 'ok_or' in o.flags and 'try' in o.flags
+
+
+def _cond_scratch_after_resize(body, bb):
+    """&mut scratch[..n]: the same n is given to scratch.resize when the scratch is shorter"""
+    t = body.term(bb)
+    no = origin(body, t['args'][1])
+    for rbb, rt in body.calls():
+        if call_matches(rt, ['Vec::<T, A>::resize']):
+            ro = origin(body, rt['args'][1])
+            if ro.params() == no.params() and not ro.has_arith() and not no.has_arith() and 'scratch' in origin(body, rt['args'][0]).fields:
+                for g in cmp_guards(body, rbb):
+                    if g['op'] == 'Gt' and g['l'].params() == no.params() and 'len' in g['r'].flags and 'scratch' in g['r'].fields:
+                        return True
+    return False
+
+
+def _cond_decode_var_count(body, bb):
+    """&slice[read..]: read is the count returned by decode_var on that slice"""
+    t = body.term(bb)
+    o = origin(body, t['args'][1])
+    return any((c.get('callee') or '').endswith('VarInt::decode_var') for c in o.calls) and not o.has_arith()
+
+
+PANIC_CONDITIONS = {
+    ('<de::deserializer::DatumDeserializer as serde_core::de::Deserializer>::deserialize_option', 'assert:overflow(Sub)'): _cond_option_index,
+    ('<de::deserializer::DatumDeserializer as serde_core::de::Deserializer>::deserialize_option', 'index'): _cond_option_index,
+    ('de::deserializer::types::decimal::read_decimal', 'index'): _cond_checked_sub_start,
+    ('<de::read::ReaderRead as de::read::ReadSlice>::read_slice', 'index'): _cond_scratch_after_resize,
+    ('<de::read::SliceRead as de::read::Read>::read_varint', 'index'): _cond_decode_var_count,
+}
+
+
 def in_scope(b):
     i = b.id
     if i.startswith('de::') or i.startswith('<de::'):
@@ -126,8 +176,10 @@ def run(ctx):
             if why is None:
                 key = (fl, kind)
                 if key in PANIC_REVIEWED and used.get(key, 0) < PANIC_REVIEWED[key][0]:
-                    used[key] = used.get(key, 0) + 1
-                    why = 'reviewed: ' + PANIC_REVIEWED[key][1]
+                    cond = PANIC_CONDITIONS.get(key)
+                    if cond is None or cond(b, bb):
+                        used[key] = used.get(key, 0) + 1
+                        why = 'reviewed: ' + PANIC_REVIEWED[key][1] + (' [structural condition re-checked]' if cond else '')
             ordn = used.get((fl, kind), 0)
             ctx.ob('PANIC', '%s/%s#%d' % (fl, kind, ordn if why and why.startswith('reviewed') else sum(1 for k2, bb2, _, _ in panic_sites(b) if k2 == kind and bb2 < bb)),
                    why is not None, loc_,
